@@ -855,6 +855,41 @@ fn special_section(scratch: &Scratch, thorough: bool, rep: &mut Rep) {
             }
         }
     }
+    // (d) enumerators of an enum nested in a class template (C++): the values are read from a cursor of the
+    //     dependent context, which evaluates to 0
+    {
+        let text = "template<typename T> struct W5 { enum Inner { kW5a = 3, kW5b = 7, kW5c = -2 }; T t; };\nW5<int> w5_use;\n";
+        let out = generate_text(scratch, "st.hpp", text, &["--no-layout-tests"], &["-x", "c++", "-std=c++14"], false);
+        rep.inc("bindgen_runs"); rep.inc("special_cases");
+        if let Some(b) = out.bindings {
+            rep.inc("oracle_compared");
+            let flat: String = b.split_whitespace().collect::<Vec<_>>().join(" ");
+            let val = |n: &str| -> Option<String> { let k = format!("pub const W5_Inner_{n} : W5_Inner = "); let k2 = format!("pub const W5_Inner_{n}: W5_Inner = "); flat.find(&k).map(|i| i + k.len()).or_else(|| flat.find(&k2).map(|i| i + k2.len())).map(|i| flat[i..].split(';').next().unwrap_or("").trim().to_string()) };
+            let got = (val("kW5a"), val("kW5b"), val("kW5c"));
+            let sample = J::obj(vec![("header", J::s(text)), ("bindgen_emits", J::s(b.trim())), ("c_value", J::s("W5<int>::kW5a = 3, kW5b = 7, kW5c = -2")), ("what", J::s(format!("emitted {:?}", got)))]);
+            match (got.0.as_deref(), got.1.as_deref(), got.2.as_deref()) {
+                (Some("3"), Some("7"), Some("-2")) => rep.inc("oracle_agree"),
+                (Some("0"), Some("0"), Some("0")) => { rep.inc("oracle_mismatch_in_known_region"); rep.known_hit("template_nested_enum_zero", sample); }
+                (None, None, None) => rep.inc("oracle_agree"), // omitted: allowed
+                _ => push_cap(&mut rep.oracle_failures, sample),
+            }
+        } else { push_cap(&mut rep.corr_failures, J::obj(vec![("header", J::s(text)), ("implementation", J::s(format!("{:?} {:?}", out.error, out.panic)))])); }
+    }
+    // (e) a function-like macro whose parameter is spelled like an object-like macro: `K` alone is not a C
+    //     expression, no constant may be emitted for it
+    {
+        let text = "#define kFL1 1\n#define kFLK(kFL1) +2\n#define kFLJ(x) 5\n";
+        let out = generate_text(scratch, "sf.h", text, &["--no-layout-tests"], &[], false);
+        rep.inc("bindgen_runs"); rep.inc("special_cases");
+        if let Some(b) = out.bindings {
+            rep.inc("oracle_compared");
+            let sample = J::obj(vec![("header", J::s(text)), ("bindgen_emits", J::s(b.trim())), ("c_value", J::s("kFLK is a function-like macro: `kFLK` alone does not expand, there is no value")), ("what", J::s("a constant is emitted for a function-like macro"))]);
+            let has = |n: &str| b.contains(&format!("pub const {n}:")) || b.contains(&format!("pub const {n} :"));
+            if has("kFLJ") { push_cap(&mut rep.oracle_failures, sample); }
+            else if has("kFLK") { rep.inc("oracle_mismatch_in_known_region"); rep.known_hit("function_like_macro_as_constant", sample); }
+            else { rep.inc("oracle_agree"); }
+        }
+    }
 }
 
 // ---------------------------------------------------------------- const variables
